@@ -102,6 +102,19 @@ CLAIMED = {
         "exceptional postcondition. Non-Exception interruptions are C10.",
    technique="contract-based deductive verification: loop invariant over ghost socket counters, per-exit VCs with event logs, z3",
    ref="5 C06"),
+ "C02": dict(
+   text="Client._store_cmd is executed symbolically from the real source for a dict of symbolic size with loop invariants (one command per "
+        "item; nothing sent and no connection attempt until every key is validated; what is sent is exactly the concatenation of the "
+        "commands, once). Each command is proved equal to the protocol format written from the statement (verb, prefixed key, flags, "
+        "exptime, byte length of the encoded data, cas, noreply marker, data block), key token <= 250 bytes without separators (C20's "
+        "contract, re-proved in the same run), numeric tokens decimal; illegal keys and non-integer expire/flags raise before anything "
+        "is written. delete/incr/decr/touch/flush_all: the command handed to the exchange function equals the documented format with "
+        "the noreply marker iff the call does not wait. All for bytes and str keys, any prefix, ascii and utf-8 encodings.",
+   note="Known finding (not repaired: pinned test asserts it): the empty key is accepted; re-confirmed by witness replay each run. Not yet "
+        "mechanised: command text of the fetch family, delete_many, version/quit/shutdown; the strict-parse uniqueness lemma. Trusted: pyvc, "
+        "z3/cvc5 strings, A-int/A-enc axioms, serde returns bytes|str|int with 16-bit flags, integer arguments within protocol ranges.",
+   technique="contract-based deductive verification: loop invariants + per-path string VCs over the real command builders (cvc5 + z3)",
+   ref="5 C02"),
 }
 REASON_PENDING = "contracts designed (DESIGN.md section 5) but not yet mechanised; not claimed"
 
